@@ -148,6 +148,13 @@ func (f *FileOutputHandler) Load(
 		return err
 	}
 
+	// Like for directory outputs, whatever currently sits at the output path is replaced
+	if info, statErr := os.Lstat(absOutputPath); statErr == nil && info.IsDir() {
+		if err := os.RemoveAll(absOutputPath); err != nil {
+			return err
+		}
+	}
+
 	outputFile, err := os.Create(absOutputPath)
 	if err != nil {
 		return err
